@@ -218,46 +218,43 @@ Theorem C08_repair_changes_nothing_else : forall (St : Type) (sweep normalise : 
 Proof. exact cp_run_same. Qed.
 Print Assumptions C08_repair_changes_nothing_else.
 
-(* ---- the drivers whose scale goes to the core (non_negative_tucker, non_negative_tucker_hals) and parafac2.
-   As the code is, normalize_factors = True is honoured only under the named hypotheses (known findings
-   nn_tucker_convergence_exit, nn_tucker_cap0, parafac2_cap0); the skeletons of the candidate repair satisfy the contract
-   for every decision sequence and every cap. *)
-Theorem C08_nn_tucker_normalised_partial : forall (St : Type) (sweep normalise : St -> St) (Normalised : St -> Prop),
+(* ---- the drivers whose scale goes to the core (non_negative_tucker, non_negative_tucker_hals) and parafac2 (after 1c1a684):
+   normalize_factors = True => the returned state is normalised, for every cap (0 included) and every decision sequence *)
+Theorem C08_nn_tucker_normalised : forall (St : Type) (sweep normalise : St -> St) (Normalised : St -> Prop),
+  (forall s, Normalised (normalise s)) ->
+  forall tol_set n decisions s0, Normalised (nt_run St sweep normalise true tol_set n decisions s0).
+Proof. exact nt_run_normalised. Qed.
+Print Assumptions C08_nn_tucker_normalised.
+Theorem C08_parafac2_normalised : forall (St : Type) (sweep normalise : St -> St) (Normalised : St -> Prop),
+  (forall s, Normalised (normalise s)) ->
+  forall tol_set n decisions s0, Normalised (p2_run St sweep normalise true tol_set n decisions s0).
+Proof. exact p2_run_normalised. Qed.
+Print Assumptions C08_parafac2_normalised.
+Theorem C08_trace2_ends_normalised : forall d tol_set n decisions, ends_normalised (trace_run2 d true tol_set n decisions) = true.
+Proof. exact trace_run2_ends_normalised. Qed.
+Print Assumptions C08_trace2_ends_normalised.
+Example C08_trace2_ex : trace_run2 NnTuckerHals true true 5 [true; true; true; true; true] = [EvN; EvU 0; EvN; EvU 0; EvN; EvU 0; EvN].
+Proof. vm_compute. reflexivity. Qed.
+(* regression witnesses: before 1c1a684 the contract held only when at least one sweep ran and (Tucker drivers) the run did
+   not leave through the convergence break *)
+Theorem C08_nn_tucker_old_flow_partial : forall (St : Type) (sweep normalise : St -> St) (Normalised : St -> Prop),
   (forall s, Normalised (normalise s)) ->
   forall tol_set n decisions s0, no_convergence_exit tol_set decisions -> 0 < n ->
-  Normalised (nt_run St sweep normalise true tol_set n decisions s0).
-Proof. exact nt_run_normalised. Qed.
-Print Assumptions C08_nn_tucker_normalised_partial.
-Theorem C08_nn_tucker_normalised_small_cap_partial : forall (St : Type) (sweep normalise : St -> St) (Normalised : St -> Prop),
-  (forall s, Normalised (normalise s)) ->
-  forall tol_set n decisions s0, 0 < n -> n <= 2 ->
-  Normalised (nt_run St sweep normalise true tol_set n decisions s0).
-Proof. exact nt_run_normalised_small_cap. Qed.
-Print Assumptions C08_nn_tucker_normalised_small_cap_partial.
-Theorem C08_nn_tucker_normalised_refuted :
-  (forall tol_set decisions, ghost_nt tol_set 0 decisions = false) /\
-  (forall n, ghost_nt true (S (S (S n))) [false; false; true] = false).
-Proof. exact (conj ghost_nt_cap0 ghost_nt_convergence). Qed.
-Print Assumptions C08_nn_tucker_normalised_refuted.
-Theorem C08_parafac2_normalised_partial : forall (St : Type) (sweep normalise : St -> St) (Normalised : St -> Prop),
+  Normalised (nt_run_old St sweep normalise true tol_set n decisions s0).
+Proof. exact nt_run_old_normalised. Qed.
+Print Assumptions C08_nn_tucker_old_flow_partial.
+Theorem C08_parafac2_old_flow_partial : forall (St : Type) (sweep normalise : St -> St) (Normalised : St -> Prop),
   (forall s, Normalised (normalise s)) ->
   forall tol_set n decisions s0, 0 < n ->
-  Normalised (p2_run St sweep normalise true tol_set n decisions s0).
-Proof. exact p2_run_normalised. Qed.
-Print Assumptions C08_parafac2_normalised_partial.
-Theorem C08_parafac2_normalised_refuted : forall tol_set decisions, ghost_p2 tol_set 0 decisions = false.
-Proof. exact ghost_p2_cap0. Qed.
-Print Assumptions C08_parafac2_normalised_refuted.
-Theorem C08_nn_tucker_fix_normalised : forall (St : Type) (sweep normalise : St -> St) (Normalised : St -> Prop),
-  (forall s, Normalised (normalise s)) ->
-  forall tol_set n decisions s0, Normalised (nt_run_fix St sweep normalise true tol_set n decisions s0).
-Proof. exact nt_run_fix_normalised. Qed.
-Print Assumptions C08_nn_tucker_fix_normalised.
-Theorem C08_parafac2_fix_normalised : forall (St : Type) (sweep normalise : St -> St) (Normalised : St -> Prop),
-  (forall s, Normalised (normalise s)) ->
-  forall tol_set n decisions s0, Normalised (p2_run_fix St sweep normalise true tol_set n decisions s0).
-Proof. exact p2_run_fix_normalised. Qed.
-Print Assumptions C08_parafac2_fix_normalised.
+  Normalised (p2_run_old St sweep normalise true tol_set n decisions s0).
+Proof. exact p2_run_old_normalised. Qed.
+Print Assumptions C08_parafac2_old_flow_partial.
+Theorem C08_nn_tucker_parafac2_old_flow_refuted :
+  (forall tol_set decisions, ghost_nt_old tol_set 0 decisions = false) /\
+  (forall n, ghost_nt_old true (S (S (S n))) [false; false; true] = false) /\
+  (forall tol_set decisions, ghost_p2_old tol_set 0 decisions = false).
+Proof. exact (conj ghost_nt_old_cap0 (conj ghost_nt_old_convergence ghost_p2_old_cap0)). Qed.
+Print Assumptions C08_nn_tucker_parafac2_old_flow_refuted.
 
 (* ================================================================== canonical form over R *)
 Local Open Scope R_scope.
